@@ -1044,6 +1044,18 @@ func b2i(b bool) int {
 
 var getterKinds = []Kind{KObj, KList, KString, KBool, KInt, KFloat}
 
+// opTimePasses lets simulated time go by between two operations (nothing in the properties depends on time: whatever the
+// library keeps for a while — a cache with an expiry, a deferred clean-up — must not show). The heap is compared afterwards as
+// after any other step.
+func opTimePasses(h *Hist) {
+	d := []time.Duration{time.Millisecond, 50 * time.Millisecond, time.Second, 61 * time.Second, time.Hour, 25 * time.Hour, 400 * 24 * time.Hour}[h.d.Draw("time-passes", 7)]
+	h.begin("TimePasses", h.prop)
+	h.tracef("%v pass", d)
+	simrt.Sleep(d)
+	h.counters["probe:time-passes"]++
+	h.heapCheck()
+}
+
 func opGet(h *Hist) {
 	n := h.pickAny()
 	if n == nil {
